@@ -22,3 +22,8 @@ PROP = dict(
     trusted=["C13_Trunc.v reader-program abstraction (tied by recorded ReadAt traces of the real readers)", "reader models C04_Model.lookup_at, C05_Model.open_/has, C06_LinkedLog.read_with_size, C06_Store.bwalk (tied to the Go readers by the C04/C05/C06 correspondence checks, not by this check)"] + COMMON_TRUSTED,
     assumptions=["io.ReaderAt implementations report short reads as errors"],
 )
+
+# GoLite (DESIGN.md section 10a)
+PROP["technique"] += " + (Bucket).loadEntry / unmarshalEntry translated on every run (GoLite): a short read yields the reader's error, never an entry"
+PROP["level_text"] += "; the compact index's entry loader itself ((Bucket).loadEntry, unmarshalEntry) is translated from the Go source on every run and proved, for every positioned reader, to return the decoded entry on a complete read and the reader's error on a short read (C13_translated_loadEntry_complete_or_readers_error)"
+PROP["trusted"] = ["translator gen/golite.go and the semantics coq/GoLite.v (DESIGN.md section 10a); (*io.SectionReader).ReadAt is an oracle of the theorem"] + list(PROP.get("trusted", []))
